@@ -5583,6 +5583,9 @@ impl PeerConnectionInner {
                 if let Some(receiver) = t.receiver() {
                     let track = receiver.track();
                     track.stop();
+                    // End the receive-loop task now (it exits when its command channel
+                    // closes) instead of leaving it parked until the last handle is dropped.
+                    receiver.runner_tx.lock().take();
                     tracing::trace!(
                         "PeerConnection.close: marked receiver track {} as ended",
                         track.id()
